@@ -101,7 +101,7 @@ OkMisbs(S) == { MisbOf(S, q, S.ts, x[1], x[2], S.ts, x[3], x[4], pf)
 SigMutants(sig) ==
        { [sig EXCEPT !.seq = q]   : q \in ({sig.seq + 1} \cup (IF sig.seq > 1 THEN {sig.seq - 1} ELSE {})) }
   \cup { [sig EXCEPT !.ts = t]    : t \in ({sig.ts + 1} \cup (IF sig.ts > 1 THEN {sig.ts - 1} ELSE {})) }
-  \cup { [sig EXCEPT !.div = d]   : d \in DIVS \ {sig.div} }
+  \cup { [sig EXCEPT !.div = d]   : d \in (DIVS \cup {""}) \ {sig.div} }      \* "" = diversifier left out of the sign bytes
   \cup { [sig EXCEPT !.path = p]  : p \in (PATHS \cup {HdrPath}) \ {sig.path} }
   \cup { [sig EXCEPT !.data = d]  : d \in (DATA \cup {NoData, "other"}) \ {sig.data} }
   \cup { [sig EXCEPT !.pk = k]    : k \in KEYS \ {sig.pk} }
